@@ -99,7 +99,9 @@ object_t* mudlib_connect(int port, const char* addr) {
    */
   add_ref (master_ob, "mudlib_connect");
   push_number (port);
-  ret = apply_master_ob (APPLY_CONNECT, 1);
+  /* an error in connect() must come back here: the callers close a rejected connection,
+   * a longjmp to the backend would leave it attached to the master object for good */
+  ret = safe_apply_master_ob (APPLY_CONNECT, 1);
   /* master_ob->interactive can be zero if the master object self destructed in the above. */
   if (ret == 0 || ret == (svalue_t *) - 1 || ret->type != T_OBJECT || !master_ob->interactive)
     {
